@@ -257,26 +257,35 @@ def r_decode(repo, tier):
         if isinstance(n, ast.Assign) and isinstance(n.targets[0], ast.Name) and norm(n.value) in ("self.fix.size // 8", "self.mask.size // 8"):
             bound = n.targets[0].id
     out.inst(f.key + "::bound", {"fixed_part_bytes": bound})
+    # the bound may be written by name or by its defining expression (temporaries are a matter of style)
+    BOUND = {bound, "self.fix.size // 8", "self.mask.size // 8"} if bound else {"self.fix.size // 8", "self.mask.size // 8"}
     if bound is None:
-        out.report(f.file, f.dqual, "fixed part length", fn.lineno, "the byte length of the fixed part is not computed from self.fix.size // 8 (variable-length specs have self.size == 0, so LEN cannot be used)")
-        return out
+        # a byte length taken from something else (LEN is 0 for variable-length specs) is wrong; no recognisable length at all is undecided
+        other = [n for n in ast.walk(fn) if isinstance(n, ast.Assign) and isinstance(n.targets[0], ast.Name) and norm(n.value).endswith(".size // 8")]
+        if other:
+            out.report(f.file, f.dqual, "fixed part length", other[0].lineno, "the byte length of the fixed part is computed as `%s`, not from self.fix.size // 8 (variable-length specs have self.size == 0, so LEN cannot be used)" % norm(other[0].value))
+            return out
+        if not any(norm(x) in BOUND for x in ast.walk(fn) if isinstance(x, ast.BinOp)):
+            out.undecide(f.file, f.dqual, "fixed part length", "no expression self.fix.size // 8 found: the way the fixed part is measured is not recognised")
+            return out
+        bound = "self.fix.size // 8"
     cfg = CFG(fn, may_raise=lambda x: False)
     # (2) guard
     guards = []
     for nd in cfg.nodes:
         if nd.kind == "test" and isinstance(nd.ast, ast.If) and nd.ast.body and isinstance(nd.ast.body[-1], ast.Raise):
             t = nd.ast.test
-            if isinstance(t, ast.Compare) and len(t.ops) == 1 and isinstance(t.ops[0], ast.Lt) and norm(t.left) == "len(%s)" % istr and norm(t.comparators[0]) == bound:
+            if isinstance(t, ast.Compare) and len(t.ops) == 1 and isinstance(t.ops[0], ast.Lt) and norm(t.left) == "len(%s)" % istr and norm(t.comparators[0]) in BOUND:
                 guards.append(nd)
     slices = []
     for nd in cfg.nodes:
         if nd.kind == "stmt" and isinstance(nd.ast, ast.Assign) and isinstance(nd.ast.value, ast.Subscript) and norm(nd.ast.value.value) == istr and isinstance(nd.ast.value.slice, ast.Slice):
             sl = nd.ast.value.slice
-            if sl.upper is not None and norm(sl.upper) == bound and (sl.lower is None or norm(sl.lower) == "0"):
+            if sl.upper is not None and norm(sl.upper) in BOUND and (sl.lower is None or norm(sl.lower) == "0"):
                 slices.append(nd)
     out.inst(f.key + "::guard", {"length_tests": [norm(g.ast.test) for g in guards], "fixed_part_slices": [norm(s.ast) for s in slices]})
     if not slices:
-        out.report(f.file, f.dqual, "fixed part slice", fn.lineno, "no slice %s[0:%s] takes the fixed part of the input" % (istr, bound))
+        out.undecide(f.file, f.dqual, "fixed part slice", "no assignment `x = %s[0:%s]` found: the way the fixed part is taken is not recognised" % (istr, bound))
     for s in slices:
         reach = cfg.reachable_from(cfg.entry, avoid={g.id for g in guards})
         if not guards or s.id in reach:
@@ -298,18 +307,27 @@ def r_decode(repo, tier):
             for x in ast.walk(ast.Module(body=n.body, type_ignores=[])):
                 if isinstance(x, ast.Subscript) and norm(x.value) == istr and isinstance(x.slice, ast.Slice):
                     tails.append(x)
+    if not tails:
+        # early-return style: `if self.size != 0: return ...` followed by the tail -- every slice of the input other than the
+        # fixed-part slices is a tail slice
+        fixed = {id(s_.ast.value) for s_ in slices}
+        for x in ast.walk(fn):
+            if isinstance(x, ast.Subscript) and norm(x.value) == istr and isinstance(x.slice, ast.Slice) and id(x) not in fixed and not (x.slice.upper is not None and norm(x.slice.upper) in BOUND and (x.slice.lower is None or norm(x.slice.lower) == "0")):
+                tails.append(x)
     out.inst(f.key + "::tail", {"tail_slices": [norm(t) for t in tails]})
     if not tails:
         out.report(f.file, f.dqual, "variable tail", fn.lineno, "variable-length specs (self.size == 0) do not receive the rest of the input")
     for t in tails:
-        if t.slice.upper is not None or t.slice.lower is None or norm(t.slice.lower) != bound:
+        if t.slice.upper is not None or t.slice.lower is None or norm(t.slice.lower) not in BOUND:
             out.report(f.file, f.dqual, "variable tail %s" % norm(t), t.lineno, "the variable tail must be all remaining input `%s[%s:]` (documented: '(*) ... all remaining bits from the instruction buffer'); %s truncates or shifts it" % (istr, bound, norm(t)))
     # (5) bytes from the matched slice
     if slices:
         bs = slices[0].ast.targets[0].id if isinstance(slices[0].ast.targets[0], ast.Name) else None
         uses = [norm(n) for n in ast.walk(fn) if (isinstance(n, ast.Call) and norm(n.func) == "iclass" and n.args and norm(n.args[0]) == bs) or (isinstance(n, ast.AugAssign) and norm(n.target).endswith(".bytes") and norm(n.value) == bs)]
         out.inst(f.key + "::bytes", {"matched_slice": bs, "recorded_by": uses})
-        if len(uses) < 2:
+        if len(uses) < 2 and any("__ret" in norm(x) for x in ast.walk(fn) if isinstance(x, ast.Name)):
+            out.undecide(f.file, f.dqual, "instruction bytes", "the matched slice is handed over through a helper's return value; its use for the instruction bytes is not traced")
+        elif len(uses) < 2:
             out.report(f.file, f.dqual, "instruction bytes", fn.lineno, "the instruction's bytes are not set from the matched slice %s on both the new-instruction and the pending-prefix path" % bs)
     return out
 
